@@ -22,6 +22,7 @@ ERRS = {'E_INDEX': 1, 'E_NOWORK': 2, 'E_ROWS': 3, 'E_ZERODIV': 4, 'E_GENES': 5, 
         'E_MERGE_COLS': 32, 'E_MERGE_EMPTY': 33}
 ONE_MINUS_EPS = Fraction(1.0 - 1.0e-6)
 KEYS2 = ('sum', 'sumsq', 'gt0', 'gt1', 'ge1')
+F2C = 'F2-csc-file-without-stored-values-in-precompute'
 
 
 @contextlib.contextmanager
@@ -193,10 +194,17 @@ def cell_values(case, paths):
     for f, p in zip(case['files'], paths):
         vals = []
         if f['rows']:
+            # a CSC file without any stored value cannot be opened by the implementation's reader
+            # (finding F2); when the statistics writer itself never opens it (no labelled cell in
+            # it) the run is still valid: its rows are all-zero by construction
+            no_reader = f['encoding'] == 'csc' and not case['M'][f['rows'], :].any()
             with quiet():
-                it = AnnDataRowIterator(h5ad_path=p, row_chunk_size=1)
+                it = None if no_reader else AnnDataRowIterator(h5ad_path=p, row_chunk_size=1)
                 for i in range(len(f['rows'])):
-                    ch = it.get_chunk(i, i + 1)[0]
+                    if no_reader:
+                        ch = np.array(case['M'][[f['rows'][i]], :])
+                    else:
+                        ch = it.get_chunk(i, i + 1)[0]
                     if not isinstance(ch, np.ndarray):
                         ch = ch.toarray()
                     src = case['M'][f['rows'][i], :]
@@ -412,6 +420,39 @@ def run_base(ctx, idx, case, n_cfg):
     rec = d / 'rec'
     rec.mkdir()
     paths = write_files(case, d)
+    # a CSC-encoded file whose cells hold no stored value at all: the implementation's reader
+    # (AnnDataRowIterator -> csc_to_csr_on_disk -> transpose_sparse_matrix_on_disk) creates a
+    # dataset with chunks=(0,) and raises (finding F2 of C05/C13, reached here through the
+    # statistics writer).  Reproduce it through the PUBLIC entry point and report it under its
+    # own class; if the writer does not raise (defect fixed) the case runs normally.
+    empty_csc = [f for f in case['files']
+                 if f['rows'] and f['encoding'] == 'csc' and not case['M'][f['rows'], :].any()]
+    if empty_csc:
+        with quiet():
+            tree0 = TaxonomyTree(data=tree_dict(case))
+        tmp0 = d / 'tmp0'
+        tmp0.mkdir()
+        try:
+            with quiet():
+                pfa.precompute_summary_stats_from_h5ad_list_and_tree(
+                    data_path_list=list(paths), taxonomy_tree=tree0, output_path=d / 'stats0.h5',
+                    rows_at_a_time=3, normalization=case['normalization'], tmp_dir=str(tmp0),
+                    n_processors=1)
+            raised = None
+        except Exception as e:      # noqa
+            raised = f'{type(e).__name__}: {e}'[:200]
+        ctx.count(('empty-csc', len(case['cells']), raised is None), nontrivial=False)
+        if raised is not None:
+            labelled = any(case['label'].get(case['cells'][i]) is not None
+                           for f in empty_csc for i in f['rows'])
+            ctx.dist('empty_csc_file', 'labelled' if labelled else 'unlabelled')
+            if 'chunk dimensions must be positive' in raised:
+                ctx.violation('statistics writer raises on a CSC file without any stored value: ' + raised,
+                              {'class': F2C, 'files': [dict(f) for f in case['files']],
+                               'M': case['M'].tolist(), 'normalization': case['normalization'],
+                               'storage': case['storage'], 'raised': raised})
+                return None
+            # some other error: not the known defect -> let the normal path report it
     vals, work_eps = cell_values(case, paths)
     k = scale_of(v for f in vals for row in f for v in row)
     enc = Enc(case)
@@ -917,6 +958,25 @@ def check_single_file(ctx, idx, rng):
     with quiet():
         gen.write_h5ad(p, case['M'], cells, case['genes'], encoding=case['files'][0]['encoding'],
                        chunks=case['files'][0]['chunks'], obs_cols=cols)
+    if case['files'][0]['encoding'] == 'csc' and not case['M'].any():
+        # see run_base: CSC file without any stored value (finding F2 reached through this entry point)
+        try:
+            with quiet():
+                pfa.precompute_summary_stats_from_h5ad(data_path=p, column_hierarchy=list(hier), taxonomy_tree=None,
+                                                       output_path=d / 'stats0.h5', rows_at_a_time=3,
+                                                       normalization=case['normalization'], tmp_dir=str(d),
+                                                       n_processors=1)
+            raised = None
+        except Exception as e:      # noqa
+            raised = f'{type(e).__name__}: {e}'[:200]
+        if raised is not None and 'chunk dimensions must be positive' in raised:
+            ctx.count(('empty-csc-single', len(cells)), nontrivial=False)
+            ctx.dist('empty_csc_file', 'single')
+            ctx.violation('statistics writer raises on a CSC file without any stored value: ' + raised,
+                          {'class': F2C, 'files': [dict(f) for f in case['files']], 'M': case['M'].tolist(),
+                           'normalization': case['normalization'], 'storage': case['storage'],
+                           'entry': 'from_h5ad', 'raised': raised})
+            return
     vals, work_eps = cell_values(case, [p])
     k = scale_of(v for row in vals[0] for v in row)
     enc = Enc(case)
@@ -1028,6 +1088,10 @@ def run(ctx):
                 'non-trivial = at least 2 clusters and 2 labelled cells (precompute), leaf level dropped (truncate), '
                 '>= 2 datasets and >= 2 leaves (merge)')
     ctx.assumptions += [
+        'a CSC-encoded input file whose cells hold no stored value makes the reader raise (h5py chunks=(0,), the defect '
+        'F2 of C05/C13): such cases are generated, the failure is reproduced through '
+        'precompute_summary_stats_from_h5ad_list_and_tree and reported under class ' + F2C + ' (known finding); '
+        'the rest of that case is skipped',
         'log2(CPM+1) per cell and gene is a model INPUT: the value the implementation\'s reader and normaliser '
         '(AnnDataRowIterator.get_chunk + CellByGeneMatrix.to_log2CPM_in_place) return for that cell alone',
         'cells with CPM in (1 - 1.4e-6, 1) are counted as ">= 1 CPM" by the code (threshold 1 - 1e-6 in log2 space); such '
@@ -1044,6 +1108,10 @@ def run(ctx):
     for i in range(n_base):
         case = gen_case(rng)
         base = run_base(ctx, i, case, n_cfg)
+        if base is None:
+            import shutil
+            shutil.rmtree(ctx.scratch / f'case{i}', ignore_errors=True)
+            continue
         check_precompute(ctx, base)
         check_truncate(ctx, base)
         import shutil
